@@ -129,6 +129,38 @@ let run_leaf toks =
                       let old = try Hashtbl.find tbl k with Not_found -> 255 in Hashtbl.replace tbl k (old land (Zr.to_int m))) cl;
          let keys = List.sort compare (Hashtbl.fold (fun k _ acc -> k :: acc) tbl []) in
          String.concat "" (List.map (fun k -> string_of_int k ^ ":" ^ string_of_int (Hashtbl.find tbl k) ^ " ") keys) ^ "| " ^ pr i ^ " " ^ pr w)
+  | ["kernel"; l1; kb; a; b] ->
+      (* the model kernel (segments of the geometry model, addSievingPrime, EratSmall cross-off over the extracted step table)
+         on [a, b], a >= 7: number of surviving numbers in [a, b], their sum mod 2^61-1 and the first / last one.
+         Decoding of the cleared (byte, mask) pairs is done here with a hash table (the model's [surviving] is quadratic). *)
+      let stop = z b and start = z a in
+      (match segments (nat_of_int 5001) (z l1) (z kb) start stop with
+       | None -> "fuel"
+       | Some segs ->
+         let ks = List.map (fun sg -> { k_low = sg.s_low; k_size = sg.s_bytes; k_high = sg.s_high }) segs in
+         let maxsize = List.fold_left (fun m sg -> max m (Zr.to_int sg.s_bytes)) 0 segs in
+         let sq = Zr.sqrt stop in
+         let sp = List.filter (fun p -> Zr.geq p (Zr.of_int 7)) (primes_between (Zr.of_int 7) sq) in
+         (match sieve_loop (nat_of_int (2 * maxsize + 10)) eratSmallSteps stop ks sp [] with
+          | None -> "fuel2"
+          | Some res ->
+            let cnt = ref 0 and sum = ref Zr.zero and first = ref Zr.zero and last = ref Zr.zero in
+            let bvs = [| 7; 11; 13; 17; 19; 23; 29; 31 |] in
+            List.iter (fun (sg, cleared) ->
+              let tbl = Hashtbl.create 100000 in
+              List.iter (fun (bb, m) -> let k = Zr.to_int bb in
+                           let old = try Hashtbl.find tbl k with Not_found -> 255 in Hashtbl.replace tbl k (old land (Zr.to_int m))) cleared;
+              for j = 0 to Zr.to_int sg.k_size - 1 do
+                let byte = try Hashtbl.find tbl j with Not_found -> 255 in
+                for k = 0 to 7 do
+                  if byte land (1 lsl k) <> 0 then begin
+                    let n = Zr.add sg.k_low (Zr.of_int (30 * j + bvs.(k))) in
+                    if Zr.leq n sg.k_high && Zr.leq n stop && Zr.geq n start then begin
+                      incr cnt; sum := Zr.rem (Zr.add !sum n) (Zr.of_string "2305843009213693951");
+                      if !cnt = 1 then first := n; last := n end end
+                done
+              done) res;
+            string_of_int !cnt ^ " " ^ pr !sum ^ " " ^ pr !first ^ " " ^ pr !last ^ " segs=" ^ string_of_int (List.length segs)))
   | ["gss"; user; l1; l2; l3; s1; s2; s3] -> pr (get_sieve_size (z user) { c_l1 = z l1; c_l2 = z l2; c_l3 = z l3; c_l1s = z s1; c_l2s = z s2; c_l3s = z s3 })
   | ["nbuf"; pcu; a; b] -> let (c, s) = next_buffer (z pcu) (z a) (z b) in pr c ^ " " ^ pr s
   | ["is_prime"; x] -> if is_prime (z x) then "1" else "0"
